@@ -37,6 +37,9 @@ def run(chk):
     ma = prog.module("arraylist.c")
     chk.require(ma is not None, "arraylist.c not in the build")
     with chk.shared():
+        from .. import heapuse
+        heapuse.rule_free_const_param(chk, prog, "C08.R5")
+        heapuse.rule_dangling_fields(chk, prog, "C08.R6")
         c07.r_expand(chk, prog, ma)
         c07.r_functions(chk, prog, ma)
     own.rule_leaks(chk, prog, "C05.R6", acquirers=own.NODE_ACQUIRERS, floor=25,
